@@ -79,14 +79,25 @@ def verify(d):
     return res
 
 
-def evaluate(d, tier, seeds, all_checks):
+def evaluate(d, tier, seeds, all_checks, scratch=False):
     meta, patch, demo = load(d)
     pid = meta['property']
-    st = sh(['git', '-C', '/repo', 'status', '--porcelain']).stdout.strip()
-    assert not st, f'/repo is not clean: {st}'
     pids = ['C%02d' % i for i in range(1, 21)] if all_checks else [pid]
     out = {}
-    a = sh(['git', '-C', '/repo', 'apply', patch])
+    env = dict(os.environ)
+    if scratch:
+        # same code path of the checks, but the changed tree is a scratch
+        # worktree handed over through VERIF_REPO (safe while other runs use /repo)
+        target = tempfile.mkdtemp(prefix='tvseed-')
+        os.rmdir(target)
+        p = sh(['git', '-C', '/repo', 'worktree', 'add', '--detach', target, 'HEAD'])
+        assert p.returncode == 0, p.stderr
+        env['VERIF_REPO'] = target
+    else:
+        target = '/repo'
+        st = sh(['git', '-C', '/repo', 'status', '--porcelain']).stdout.strip()
+        assert not st, f'/repo is not clean: {st}'
+    a = sh(['git', '-C', target, 'apply', patch])
     assert a.returncode == 0, a.stderr
     try:
         for q in pids:
@@ -94,7 +105,7 @@ def evaluate(d, tier, seeds, all_checks):
             saved = open(ev).read() if os.path.exists(ev) else None
             for seed in seeds:
                 p = sh([os.path.join(HERE, 'check'), q, '--tier', tier, '--seed',
-                    str(seed)], timeout=7200)
+                    str(seed)], timeout=7200, env=env)
                 mons = sorted({l.split('monitor=')[1].split()[0] for l in
                     p.stdout.splitlines() if l.startswith('  monitor=')})
                 out.setdefault(q, []).append({'seed': seed, 'exit': p.returncode,
@@ -103,7 +114,11 @@ def evaluate(d, tier, seeds, all_checks):
                 open(ev, 'w').write(saved)
             shutil.rmtree(os.path.join(HERE, 'replays', q), ignore_errors=True)
     finally:
-        sh(['git', '-C', '/repo', 'checkout', '--', '.'])
+        if scratch:
+            sh(['git', '-C', '/repo', 'worktree', 'remove', '--force', target])
+            shutil.rmtree(target, ignore_errors=True)
+        else:
+            sh(['git', '-C', '/repo', 'checkout', '--', '.'])
     return out
 
 
@@ -114,6 +129,7 @@ def main():
     ap.add_argument('--tier', default='quick')
     ap.add_argument('--seeds', default='0')
     ap.add_argument('--all', action='store_true')
+    ap.add_argument('--scratch', action='store_true')
     a = ap.parse_args()
     d = os.path.abspath(a.dir)
     rp = os.path.join(d, 'result.json')
@@ -122,8 +138,10 @@ def main():
         res['verify'] = verify(d)
         print(json.dumps(res['verify'], indent=1)[:1500])
     else:
-        r = evaluate(d, a.tier, [int(x) for x in a.seeds.split(',')], a.all)
-        res.setdefault('eval', {}).setdefault(a.tier, {}).update(r)
+        r = evaluate(d, a.tier, [int(x) for x in a.seeds.split(',')], a.all,
+            a.scratch)
+        res.setdefault('eval', {}).setdefault(a.tier + ('-scratch' if a.scratch
+            else ''), {}).update(r)
         for q, runs in r.items():
             print(q, [(x['seed'], x['exit'], x['monitors']) for x in runs])
     with open(rp, 'w') as f:
